@@ -538,6 +538,77 @@ func c16DotDot(dotu bool) Scenario {
 // c16Deeper: additional elements of the enumerated element lists in the thorough tier
 var c16Deeper int
 
+// c16HostOddSizes: file systems of the host on which lstat reports sizes that say nothing
+// about the content (procfs: symbolic links and files of size 0). The length in a stat
+// reply is what lstat reports, whatever that is; in 9P2000.u the link's target is
+// carried besides.
+func c16HostOddSizes(dotu bool) Scenario {
+	name := fmt.Sprintf("stat of /proc entries whose lstat size is 0 dotu=%v", dotu)
+	return Scenario{Name: name, Run: func(rc *RunCtx) *Result {
+		res := &Result{Exhaustive: true}
+		var bad []string
+		for _, exp := range []struct {
+			root  string
+			names []string
+		}{{"/proc", []string{"self", "thread-self", "mounts", "version", "net"}}, {"/proc/self", []string{"cwd", "exe", "root", "status", "fd"}}} {
+			if rp, err := filepath.EvalSymlinks(exp.root); err != nil {
+				continue
+			} else {
+				exp.root = rp // (/proc/self is itself a link: the directory it leads to is exported)
+			}
+			exp := exp
+			body := func() {
+				h := newUfsH(exp.root, 8216, dotu)
+				cl := h.Connect()
+				ver := "9P2000"
+				if dotu {
+					ver = "9P2000.u"
+				}
+				cl.Version(8216, ver)
+				cl.Rpc(tattach(1, 0, wire.NOFID, "", uint32(os.Geteuid()), dotu))
+				for _, n := range exp.names {
+					fi, err := os.Lstat(filepath.Join(exp.root, n))
+					if err != nil {
+						continue
+					}
+					r := cl.Rpc(twalk(2, 0, 1, n))
+					if r == nil || r.Type != wire.Rwalk || len(r.Wqid) != 1 {
+						bad = append(bad, fmt.Sprintf("walk to %s/%s answered %v", exp.root, n, r))
+						continue
+					}
+					st := cl.Rpc(&wire.Msg{Type: wire.Tstat, Tag: 3, Fid: 1})
+					cl.Rpc(&wire.Msg{Type: wire.Tclunk, Tag: 3, Fid: 1})
+					res.Evals++
+					if st == nil || st.Type != wire.Rstat {
+						bad = append(bad, fmt.Sprintf("Tstat of %s/%s answered %v", exp.root, n, st))
+						continue
+					}
+					if !fi.IsDir() && st.Stat.Length != uint64(fi.Size()) {
+						bad = append(bad, fmt.Sprintf("Tstat of %s/%s reports length %d, lstat reports %d", exp.root, n, st.Stat.Length, fi.Size()))
+					}
+					if fi.Mode()&os.ModeSymlink != 0 {
+						if dotu && st.Stat.Mode&go9p.DMSYMLINK == 0 {
+							bad = append(bad, fmt.Sprintf("Tstat of the symbolic link %s/%s has mode %#x", exp.root, n, st.Stat.Mode))
+						}
+						if tgt, err := os.Readlink(filepath.Join(exp.root, n)); dotu && err == nil && st.Stat.Ext != tgt && n != "self" && n != "thread-self" {
+							bad = append(bad, fmt.Sprintf("Tstat of the symbolic link %s/%s carries target %q, readlink gives %q", exp.root, n, st.Stat.Ext, tgt))
+						}
+					}
+				}
+			}
+			x := vs.Run(nil, body, vs.Options{Horizon: 100000000})
+			if len(x.Panics) > 0 {
+				bad = append(bad, "panic: "+x.Panics[0].Value)
+			}
+		}
+		res.Nontrivial = res.Evals
+		if len(bad) > 0 {
+			res.Findings = append(res.Findings, Finding{Sig: "C16/host-odd-sizes/" + sigWords(bad[0]), Msg: strings.Join(bad, "\n")})
+		}
+		return res
+	}}
+}
+
 // c16SmallMsize: walks on a connection whose message size is so small that a reply for
 // as many qids as names were asked for would not fit, though the reply that is due (one
 // qid per element that exists) does.
@@ -658,6 +729,7 @@ func c16Scenarios(tier string) []Scenario {
 	for i, ms := range []uint32{64, 100, 128, 216, 256} {
 		out = append(out, c16SmallMsize(ms, i%2 == 0))
 	}
+	out = append(out, c16HostOddSizes(false), c16HostOddSizes(true))
 	c16Deeper = 0
 	if tier == "thorough" {
 		c16Deeper = 1
